@@ -907,6 +907,9 @@ def rule_cursor(ck, facts):
     ck.floor(R, "closure_cursor_resets", m, 1)
 
 def run(ck, facts, tier):
+    from ..rules import saverestore
+
+    saverestore.run(ck, facts, "C05.cursor", "mimium_lang", scope="::runtime::", floor=2, why="fields of the machine that describe the running activation")
     rule_sizes(ck, facts)
     rule_order(ck, facts)
     rule_cell_operand(ck, facts)
